@@ -150,6 +150,13 @@ class SymBuilder:
     def func(self, v):
         return v
 
+    def ghost(self, name, value):
+        """Ghost state (spec-level value: python constant or z3 term)."""
+        if isinstance(value, V):
+            value = to_spec(self.ctx, self.ctx.heap, value)
+        self.ctx.ghost[name] = value
+        return value
+
 
 # ---------------------------------------------------------------------------------------------
 # verification of one function against its contract
